@@ -175,4 +175,53 @@ def SUser.expected (u : SUser) : Bool :=
   | some p => !u.rej p
   | none => true
 
+/-! ### C. the evaluation context of an XPath test: a mutable cell written and then read by every call
+
+    validators/facets.py:901-909  XsdAssertionFacet.__call__:
+        context = XPathContext(self._root, variables={'value': value})     -- store (into the call's OWN context)
+        self.token.evaluate(context)                                       -- … elementpath … read of $value
+    and the same shape at every site of the regenerated table of XPath evaluation sites (assertions.py:135-143,
+    elements.py type alternatives, identities.py selectors and fields).  `shared = false`: the context is built by
+    the call (the code as it is).  `shared = true`: one context object for all calls (a class attribute, a module
+    global, an attribute of a schema component): the `scratch_lax_race` shape.  `gap` = number of statements
+    between the store and the read (inside elementpath). -/
+
+inductive XPC where
+  | idle
+  | store (v : Nat)
+  | eval (k : Nat)        -- k statements of the token evaluation left before the variable is read
+  | read
+  deriving DecidableEq, Repr
+
+structure XTh where
+  vals : List Nat          -- the values this thread validates, one call each
+  pc : XPC
+  res : List Nat           -- what the test was evaluated on, call by call
+
+structure XCfg where
+  cell : Nat → Nat         -- cell 0 = the shared context; cell (t + 1) = the context of thread t's current call
+  th : Nat → XTh
+
+def xstep (shared : Bool) (gap : Nat) (t : Nat) (c : XCfg) : XCfg :=
+  let th := c.th t
+  let slot := if shared then 0 else t + 1
+  match th.pc with
+  | .idle =>
+    match th.vals with
+    | [] => c
+    | v :: r => { c with th := upd c.th t { th with vals := r, pc := .store v } }
+  | .store v => { cell := upd c.cell slot v, th := upd c.th t { th with pc := .eval gap } }
+  | .eval (k + 1) => { c with th := upd c.th t { th with pc := .eval k } }
+  | .eval 0 => { c with th := upd c.th t { th with pc := .read } }
+  | .read => { c with th := upd c.th t { th with pc := .idle, res := th.res ++ [c.cell slot] } }
+
+def xexec (shared : Bool) (gap : Nat) : List Nat → XCfg → XCfg
+  | [], c => c
+  | t :: ts, c => xexec shared gap ts (xstep shared gap t c)
+
+def xinit (vals : Nat → List Nat) : XCfg :=
+  { cell := fun _ => 0, th := fun t => { vals := vals t, pc := .idle, res := [] } }
+
+def XTh.finished (th : XTh) : Bool := th.vals.isEmpty && th.pc == .idle
+
 end XsVerif.Threads.Cache
